@@ -51,6 +51,7 @@ package geom
 //@ func (*twkbWriter).writeIDList
 //@   modifies w, w.twkbContents
 //@   ensures !w.hasIDs ==> result == nil && onlychanged(w)
+//@   ensures onlychanged(w, twkbContents) && Grown(w.twkbContents, old(w.twkbContents))
 //@   ensures w.hasIDs && num != len(w.idList) ==> result != nil
 //@   ensures w.hasIDs && num == len(w.idList) ==> result == nil
 //@   loop 0 invariant 0 <= i && i <= num && num == len(w.idList) && onlychanged(w, twkbContents) && w != nil && Grown(w.twkbContents, old(w.twkbContents))
@@ -84,11 +85,6 @@ package geom
 //@   ensures (precXY < -8 || precXY > 7) ==> result1 != nil
 //@   ensures result1 == nil ==> -8 <= precXY && precXY <= 7
 
-// body encoder: outside the contracts (float rounding, recursion over the
-// geometry); trusted to touch only the writer it is given
-//@ func (*twkbWriter).writeGeometry
-//@   trusted
-//@   modifies w
 
 //@ func verifTWKBHeadersRoundTrip
 //@   requires 4 <= kind && kind <= 7 && -8 <= precXY && precXY <= 7 && 0 <= precZ && precZ <= 7 && 0 <= precM && precM <= 7
